@@ -62,8 +62,8 @@ proof {
 }
 //@loop 1
 invariant
-    current_cells@.len() <= 0x0fffffffffffffff,
-    all_canonical(cells@) ==> refines(current_cells@, init),
+    current_cells@.len() <= 0x0fffffffffffffff, // [C14:compact.length-bound]
+    all_canonical(cells@) ==> refines(current_cells@, init),   // [C08:compact.pass-keeps-region]
 decreases current_cells@.len(), (if changed { 1int } else { 0int }),
 //@at after-let i
 proof {
@@ -72,11 +72,10 @@ proof {
 }
 //@loop 2
 invariant
-    i <= current_cells@.len(),
-    result@.len() <= i,
-    changed ==> result@.len() < i,
-    !changed ==> result@.len() == i,
-    all_canonical(cells@) ==> refines(comb(result@, current_cells@, i as int), current_cells@),
+    i <= current_cells@.len(),                  // [C14:compact.scan-in-bounds]
+    result@.len() <= i,                         // [C14:compact.pass-does-not-grow]
+    changed ==> result@.len() < i,              // [C14:compact.progress-when-changed]
+    all_canonical(cells@) ==> refines(comb(result@, current_cells@, i as int), current_cells@),   // [C08:compact.scan-keeps-region]
 decreases current_cells@.len() - i,
 //@at loop 2 body-start
 proof {
@@ -86,7 +85,7 @@ proof {
 //@loop 3
 invariant
     1 <= j <= expected_children,
-    has_all_siblings ==> (forall|jj: int| 1 <= jj < j ==> #[trigger] current_cells@[i + jj] == cell + jj * stride),
+    has_all_siblings ==> (forall|jj: int| 1 <= jj < j ==> #[trigger] current_cells@[i + jj] == cell + jj * stride),   // [C08:compact.sibling-test]
 //@at loop 3 body-start
 proof {
     lemma_stride_bound(resolution as int);
